@@ -759,6 +759,40 @@ def class_probes(rng, tier, out):
                 ('fy', 'moreau', 'biconj'), yr=(-0.3, 0.3))
 
 
+def formula_probes(rng, tier, out):
+    """the value formulas of C08/KL.v (hand transcription of the four KL _call bodies) against the code."""
+    import odl
+    from scipy.special import xlogy
+    F = odl.solvers
+    reps = 3 if tier == 'quick' else 12
+    for kind, S, w in (('rn', odl.rn(3), [1.0] * 3), ('rn_const', odl.rn(3, weighting=0.5), [0.5] * 3),
+                       ('rn_array', odl.rn(3, weighting=np.array([0.5, 2.0, 1.0])), [0.5, 2.0, 1.0]),
+                       ('discr1', odl.uniform_discr(0, 1.5, 3), [0.5] * 3)):
+        w = np.array(w)
+        for _ in range(reps):
+            g = np.array([rng.choice([0.0, 0.5, 1.0, 2.0]) for _ in range(3)])
+            gp = np.array([rng.choice([0.5, 1.0, 2.0]) for _ in range(3)])
+            x = np.array([rng.choice([0.25, 0.5, 1.0, 3.0]) for _ in range(3)])
+            y = np.array([rng.choice([-2.0, -0.5, 0.0, 0.5, 0.875]) for _ in range(3)])
+            table = [
+                ('KL', F.KullbackLeibler(S, prior=S.element(g)), x, float(np.sum(w * (x - g + xlogy(g, g / x))))),
+                ('KLconj', F.KullbackLeibler(S, prior=S.element(g)).convex_conj, y, float(np.sum(w * (-xlogy(g, 1 - y))))),
+                ('KLCE', F.KullbackLeiblerCrossEntropy(S, prior=S.element(gp)), x,
+                 float(np.sum(w * (gp - x + xlogy(x, x / gp))))),
+                ('KLCEconj', F.KullbackLeiblerCrossEntropy(S, prior=S.element(gp)).convex_conj, y,
+                 float(np.sum(w * (gp * (np.exp(y) - 1))))),
+            ]
+            for name, f, pt, want in table:
+                try:
+                    got = float(f(S.element(pt)))
+                    ok = bool(abs(got - want) <= 1e-9 * (1 + abs(want)))
+                    det = 'got %r, formula %r' % (got, want)
+                except Exception as e:  # noqa
+                    ok, det = False, 'raised %s' % type(e).__name__
+                out.append(C.Probe(ok, 'formula:%s:%s' % (name, kind),
+                                   '%s value equals the formula proved about in C08/KL.v' % name, None, det))
+
+
 def probes(rng, tier):
     import warnings
     warnings.simplefilter('ignore')
@@ -766,6 +800,7 @@ def probes(rng, tier):
     out = []
     tree_probes(rng, tier, out)
     class_probes(rng, tier, out)
+    formula_probes(rng, tier, out)
     return out
 
 
